@@ -18,6 +18,7 @@
 (*  call {t, op: report|flush|close, cid, tn, name, kind, v, tags}         *)
 (*  ret  {t, op, cid, err, alive}                                          *)
 (*  emit {dest, len, ok, common_ok, mets:[{cid, name, kind, v, tags, ts}]} *)
+(*  emitted {n}   sender side: a batch was handed to the transport         *)
 (*  panic {t, msg} | deadlock {where} | end {pending, qlen, done} | endx   *)
 (***************************************************************************)
 EXTENDS M3Reporter, Json
@@ -103,6 +104,10 @@ TNext ==
                   ELSE TRUE
                /\ UNCHANGED <<calls, cfgv, bad, panicked, closeRes, called, returned, retAtClose, closeCalled, closeReturned>> /\ Unobs
                /\ JudgeState
+       [] r.e = "emitted" ->
+            (* sender side (observation hook of the batching loop): a batch was handed to the transport *)
+            /\ IF closeReturned THEN Fail("CloseDrains:emit-after-Close-returned") ELSE TRUE
+            /\ UNCHANGED <<calls, cfgv, sentD, bad, occ, lastTn, panicked, closeRes, called, returned, retAtClose, closeCalled, closeReturned, lateEnq>> /\ Unobs
        [] r.e = "panic" ->
             /\ panicked' = TRUE /\ bad' = TRUE
             /\ UNCHANGED <<calls, cfgv, sentD, occ, lastTn, closeRes, called, returned, retAtClose, closeCalled, closeReturned, lateEnq>> /\ Unobs
